@@ -32,6 +32,25 @@ pub fn looks_like_scheme(bytes: &[u8]) -> bool {
 	false
 }
 
+/// Checks if the first segment of the input path contains a `:`.
+///
+/// Such a path cannot start a relative reference as is (RFC 3986,
+/// section 4.2): its prefix would be read as a scheme, or the reference
+/// would be rejected if that prefix is not a valid scheme.
+#[inline]
+pub fn first_segment_has_colon(bytes: &[u8]) -> bool {
+	let mut i = 0;
+	while i < bytes.len() {
+		match bytes[i] {
+			b':' => return true,
+			b'/' => return false,
+			_ => i += 1,
+		}
+	}
+
+	false
+}
+
 #[derive(Debug, PartialEq, Eq)]
 pub enum SchemeAuthorityOrPath {
 	Scheme,
